@@ -10,6 +10,7 @@ of those places in the Go source breaks this file.
 -/
 import XlModel.Lemmas.AdjustGrid
 import XlModel.Lemmas.AdjustCols
+import XlModel.Lemmas.AdjustObjs
 
 namespace XlModel.Props.C06
 open XlModel XlModel.Adjust
@@ -996,5 +997,198 @@ theorem duplicate_refines (rows rows1 : List Row) (hw : WF rows) (hw1 : WF rows1
       rw [← hv1 r]
       unfold viewAt slotRow
       simp [hr]
+
+/-! ## Range objects, list level, and rejected edits at full strength -/
+
+/-- an `InsertRows` that passes the argument checks, on a dense sheet with well-formed objects: either one of
+the two read-only limit checks rejects it and nothing changes, or it is accepted and the result is explicit -/
+theorem insert_rows_total (s : Sheet) (hw : WF s.rows) (ho : ObjWF s) (row n : Int) (hrow : 1 ≤ row) (hn : 1 ≤ n) :
+    adjustHelperG false s .rows row n = (.err, s) ∨
+    ∃ out, adjustHelperG false s .rows row n = (.ok, { s with
+        rows := out,
+        links := s.links.map fun l => { l with pos := l.pos.map (insPos .rows row n) },
+        cfs := s.cfs.filterMap fun it =>
+          if it.rects = [] then none else some { it with rects := it.rects.map (insSqRect .rows row n) },
+        dvs := s.dvs.filterMap fun it =>
+          if it.rects = [] then none else some { it with rects := it.rects.map (insSqRect .rows row n) },
+        merges := s.merges.filterMap fun m => m.bind fun q =>
+          if q.x1 = q.x2 ∧ q.y1 = q.y2 then none else some (some (insRect .rows row n q)),
+        filter := s.filter.map (fun o => o.map (insRect .rows row n)),
+        tables := s.tables.map fun tb => { tb with rect := tb.rect.map (insRect .rows row n) } }) := by
+  by_cases hhit' : (Facts.C06.rangeCheckFirst && rangeLimitHit s .rows row n) = true
+  · exact Or.inl (adjustHelperG_hit s .rows row n hhit')
+  have hhit : (Facts.C06.rangeCheckFirst && rangeLimitHit s .rows row n) = false := by simpa using hhit'
+  have hnohit : rangeLimitHit s .rows row n = false := by simpa [range_check_first] using hhit
+  cases hd : adjustRowDimensions s.rows row n with
+  | none => exact Or.inl (adjustHelperG_dims_none s .rows row n (by unfold adjustDims; simp [hd]))
+  | some rows1 =>
+    right
+    obtain ⟨e1, hlim⟩ := adjustRowDimensions_some s.rows hw.rowsDense row n hrow rows1 hd
+    obtain ⟨out, hout, hslots⟩ := rows_ins_slots s.rows hw.rowsDense row n hrow hn
+    obtain ⟨hwf, _⟩ := rows_ins_view s.rows hw row n hrow hn (fun hc => hlim hc (by omega)) out hslots
+    have hdims : adjustDims s .rows row n = some { s with rows := rows1 } := by
+      unfold adjustDims; simp [hd]
+    have hfw := adjustHelper_forward s { s with rows := rows1 } .rows row n out out hhit hdims
+      (by simpa [e1] using hout) (checkRow_id hwf)
+    unfold adjustHelper at hfw
+    obtain ⟨hfit, hlk⟩ := no_hit_all s .rows row n (by omega) hnohit
+    have hra := runAdjusters_ins
+      { ({ s with rows := rows1 } : Sheet) with
+        links := adjustHyperlinks ({ s with rows := rows1 } : Sheet).links .rows row n, rows := out }
+      .rows row n (by omega) ⟨ho.range.sq, ho.range.merges, ho.range.filter, ho.range.tables⟩ hfit
+    have hl := adjustHyperlinks_ins .rows row n (by omega) s.links
+      (fun l hl p hp => ⟨(ho.links l hl p hp).1, (ho.links l hl p hp).2, hlk l hl p hp⟩)
+    refine ⟨out, ?_⟩
+    rw [hfw, hra]
+    simp only [hl]
+
+/-- clause "an edit that is rejected … changes nothing on any sheet", `InsertRows`, at full strength: dense
+worksheet, well-formed range objects of every kind (conditional formats, data validations, merged cells, auto
+filter, tables, hyperlinks) wherever they reach — any status other than `ok` leaves the sheet as it was -/
+theorem rejected_noop_insert_rows_all (s s' : Sheet) (hw : WF s.rows) (ho : ObjWF s) (row n : Int)
+    (st : Status) (h : insertRows s row n = (st, s')) (hst : st ≠ .ok) : s' = s := by
+  unfold insertRows insertRowsG at h
+  by_cases g1 : row < 1
+  · simp [g1] at h; exact h.2.symm
+  by_cases g2 : row ≥ maxRows ∨ n ≥ maxRows
+  · simp [g1, g2] at h; exact h.2.symm
+  by_cases g3 : n < 1
+  · simp [g1, g2, g3] at h; exact h.2.symm
+  simp only [g1, g2, g3, if_false] at h
+  rcases insert_rows_total s hw ho row n (by omega) (by omega) with he | ⟨out, hk⟩
+  · rw [he] at h; exact (Prod.mk.inj h).2.symm
+  · rw [hk] at h; exact absurd (Prod.mk.inj h).1.symm hst
+
+/-- clause "shift, grow, shrink or delete range-anchored objects by the same rule", `InsertRows`, list level:
+an accepted insertion maps every conditional format, data validation, merged cell, the auto filter, every table
+and every hyperlink element by element by the shift rule (order kept; single-cell merges and empty sqrefs dropped) -/
+theorem insert_rows_objects_refine (s s' : Sheet) (hw : WF s.rows) (ho : ObjWF s) (row n : Int)
+    (h : insertRows s row n = (.ok, s')) :
+    s'.links = (s.links.map fun l => { l with pos := l.pos.map (insPos .rows row n) }) ∧
+    s'.cfs = (s.cfs.filterMap fun it =>
+      if it.rects = [] then none else some { it with rects := it.rects.map (insSqRect .rows row n) }) ∧
+    s'.dvs = (s.dvs.filterMap fun it =>
+      if it.rects = [] then none else some { it with rects := it.rects.map (insSqRect .rows row n) }) ∧
+    s'.merges = (s.merges.filterMap fun m => m.bind fun q =>
+      if q.x1 = q.x2 ∧ q.y1 = q.y2 then none else some (some (insRect .rows row n q))) ∧
+    s'.filter = s.filter.map (fun o => o.map (insRect .rows row n)) ∧
+    s'.tables = (s.tables.map fun tb => { tb with rect := tb.rect.map (insRect .rows row n) }) := by
+  unfold insertRows insertRowsG at h
+  by_cases g1 : row < 1
+  · simp [g1] at h
+  by_cases g2 : row ≥ maxRows ∨ n ≥ maxRows
+  · simp [g1, g2] at h
+  by_cases g3 : n < 1
+  · simp [g1, g2, g3] at h
+  simp only [g1, g2, g3, if_false] at h
+  rcases insert_rows_total s hw ho row n (by omega) (by omega) with he | ⟨out, hk⟩
+  · rw [he] at h; cases h
+  · rw [hk] at h
+    have := (Prod.mk.inj h).2
+    subst this
+    exact ⟨rfl, rfl, rfl, rfl, rfl, rfl⟩
+
+
+/-- the same dichotomy for `InsertCols` (column number `num ≥ 1`, count `n ≥ 1`) -/
+theorem insert_cols_total (s : Sheet) (hw : WF s.rows) (ho : ObjWF s) (num n : Int) (h1 : 1 ≤ num) (hn : 1 ≤ n) :
+    adjustHelperG false s .cols num n = (.err, s) ∨
+    ∃ out, adjustHelperG false s .cols num n = (.ok, { s with
+        rows := out,
+        cols := adjustCols s.cols num n,
+        links := s.links.map fun l => { l with pos := l.pos.map (insPos .cols num n) },
+        cfs := s.cfs.filterMap fun it =>
+          if it.rects = [] then none else some { it with rects := it.rects.map (insSqRect .cols num n) },
+        dvs := s.dvs.filterMap fun it =>
+          if it.rects = [] then none else some { it with rects := it.rects.map (insSqRect .cols num n) },
+        merges := s.merges.filterMap fun m => m.bind fun q =>
+          if q.x1 = q.x2 ∧ q.y1 = q.y2 then none else some (some (insRect .cols num n q)),
+        filter := s.filter.map (fun o => o.map (insRect .cols num n)),
+        tables := s.tables.map fun tb => { tb with rect := tb.rect.map (insRect .cols num n) } }) := by
+  by_cases hhit' : (Facts.C06.rangeCheckFirst && rangeLimitHit s .cols num n) = true
+  · exact Or.inl (adjustHelperG_hit s .cols num n hhit')
+  have hhit : (Facts.C06.rangeCheckFirst && rangeLimitHit s .cols num n) = false := by simpa using hhit'
+  have hnohit : rangeLimitHit s .cols num n = false := by simpa [range_check_first] using hhit
+  by_cases hl : colLimitHit s.rows num n = true
+  · exact Or.inl (adjustHelperG_dims_none s .cols num n (by unfold adjustDims; simp [hl]))
+  right
+  have hl' : colLimitHit s.rows num n = false := by simpa using hl
+  let g : Row → Row := fun r => { r with cells := r.cells.map (shiftCell num n) }
+  have hdims : adjustDims s .cols num n =
+      some { s with rows := s.rows.map g, cols := adjustCols s.cols num n } := by
+    unfold adjustDims; simp [hl', g]
+  have hdense : DenseK Row.r (s.rows.map g) := by
+    intro i y hy
+    rw [List.getElem?_map] at hy
+    obtain ⟨x, hx, rfl⟩ := Option.map_eq_some_iff.mp hy
+    exact hw.rowsDense i x hx
+  have hlim : ∀ (k : Nat) (r : Row), s.rows[k]? = some r →
+      num ≤ (r.cells.length : Int) → (r.cells.length : Int) + n ≤ maxCols := by
+    intro k r hr hc
+    unfold colLimitHit at hl'
+    rw [List.any_eq_false] at hl'
+    have h2 := hl' r (List.mem_of_getElem? hr)
+    simp only [Bool.not_eq_true] at h2
+    rw [List.any_eq_false] at h2
+    have hlen : 0 < r.cells.length := by omega
+    have hx := List.getElem_mem (l := r.cells) (n := r.cells.length - 1) (by omega)
+    have h3 := h2 _ hx
+    have hk := (hw.cellsDense r (List.mem_of_getElem? hr)) (r.cells.length - 1) _ (List.getElem?_eq_getElem (by omega))
+    simp only [decide_eq_true_eq] at h3
+    omega
+  obtain ⟨outs, hcr, _⟩ := checkRowAux_lift g s.rows 0 (fun k r hr => by
+    obtain ⟨out, hout, _⟩ := cells_ins_slots (0 + k) r.cells (by simpa using hw.cellsOk k r hr) num n h1 hn
+      (hlim k r hr)
+    exact ⟨out, hout⟩)
+  have hfw := adjustHelper_forward s _ .cols num n (s.rows.map g) outs hhit hdims
+    (checkSheet_id _ hdense) hcr
+  unfold adjustHelper at hfw
+  obtain ⟨hfit, hlk⟩ := no_hit_all s .cols num n (by omega) hnohit
+  have hra := runAdjusters_ins
+    { ({ s with rows := s.rows.map g, cols := adjustCols s.cols num n } : Sheet) with
+      links := adjustHyperlinks s.links .cols num n, rows := outs }
+    .cols num n (by omega) ⟨ho.range.sq, ho.range.merges, ho.range.filter, ho.range.tables⟩ hfit
+  have hlinks := adjustHyperlinks_ins .cols num n (by omega) s.links
+    (fun l hl p hp => ⟨(ho.links l hl p hp).1, (ho.links l hl p hp).2, hlk l hl p hp⟩)
+  refine ⟨outs, ?_⟩
+  rw [hfw, hra]
+  simp only [hlinks]
+
+/-- … `InsertCols`, rejected edits at full strength -/
+theorem rejected_noop_insert_cols_all (s s' : Sheet) (hw : WF s.rows) (ho : ObjWF s) (col : List Char) (num n : Int)
+    (hnum : Ref.columnNameToNumber col = .ok num) (h1 : 1 ≤ num)
+    (st : Status) (h : insertCols s col n = (st, s')) (hst : st ≠ .ok) : s' = s := by
+  unfold insertCols insertColsG at h
+  simp only [hnum] at h
+  by_cases g1 : n < 1 ∨ n > maxCols
+  · simp [g1] at h; exact h.2.symm
+  simp only [g1, if_false] at h
+  rcases insert_cols_total s hw ho num n h1 (by omega) with he | ⟨out, hk⟩
+  · rw [he] at h; exact (Prod.mk.inj h).2.symm
+  · rw [hk] at h; exact absurd (Prod.mk.inj h).1.symm hst
+
+/-- … `InsertCols`, range objects at list level -/
+theorem insert_cols_objects_refine (s s' : Sheet) (hw : WF s.rows) (ho : ObjWF s) (col : List Char) (num n : Int)
+    (hnum : Ref.columnNameToNumber col = .ok num) (h1 : 1 ≤ num)
+    (h : insertCols s col n = (.ok, s')) :
+    s'.links = (s.links.map fun l => { l with pos := l.pos.map (insPos .cols num n) }) ∧
+    s'.cfs = (s.cfs.filterMap fun it =>
+      if it.rects = [] then none else some { it with rects := it.rects.map (insSqRect .cols num n) }) ∧
+    s'.dvs = (s.dvs.filterMap fun it =>
+      if it.rects = [] then none else some { it with rects := it.rects.map (insSqRect .cols num n) }) ∧
+    s'.merges = (s.merges.filterMap fun m => m.bind fun q =>
+      if q.x1 = q.x2 ∧ q.y1 = q.y2 then none else some (some (insRect .cols num n q))) ∧
+    s'.filter = s.filter.map (fun o => o.map (insRect .cols num n)) ∧
+    s'.tables = (s.tables.map fun tb => { tb with rect := tb.rect.map (insRect .cols num n) }) := by
+  unfold insertCols insertColsG at h
+  simp only [hnum] at h
+  by_cases g1 : n < 1 ∨ n > maxCols
+  · simp [g1] at h
+  simp only [g1, if_false] at h
+  rcases insert_cols_total s hw ho num n h1 (by omega) with he | ⟨out, hk⟩
+  · rw [he] at h; cases h
+  · rw [hk] at h
+    have := (Prod.mk.inj h).2
+    subst this
+    exact ⟨rfl, rfl, rfl, rfl, rfl, rfl⟩
 
 end XlModel.Props.C06
